@@ -223,6 +223,12 @@ rfbSendSecurityTypeList(rfbClientPtr cl, int primaryType)
 
     for (handler = securityHandlers;
 	    handler && size<MAX_SECURITY_TYPES; handler = handler->next) {
+	/* The built-in handlers can also be (re-)linked into the global list on
+	   behalf of other clients (or through the ->next pointer an unregistered
+	   handler keeps): only advertise the one this client may use. */
+	if ((handler == &VncSecurityHandlerVncAuth || handler == &VncSecurityHandlerNone)
+	    && handler->type != primaryType)
+	    continue;
 	buffer[size] = handler->type;
 	size++;
     }
@@ -296,17 +302,24 @@ rfbSendSecurityType(rfbClientPtr cl, int32_t securityType)
  * possible "security types" (protocol 3.7).
  */
 
+/*
+ * The built-in security type this client has to use: the one rfbAuthNewClient
+ * offers to it (and the only built-in one it may choose).
+ */
+static int32_t
+rfbClientPrimarySecurityType(rfbClientPtr cl)
+{
+    if (!cl->screen->authPasswdData || cl->reverseConnection) {
+	/* chk if this condition is valid or not. */
+	return rfbSecTypeNone;
+    }
+    return rfbSecTypeVncAuth;
+}
+
 void
 rfbAuthNewClient(rfbClientPtr cl)
 {
-    int32_t securityType = rfbSecTypeInvalid;
-
-    if (!cl->screen->authPasswdData || cl->reverseConnection) {
-	/* chk if this condition is valid or not. */
-	securityType = rfbSecTypeNone;
-    } else if (cl->screen->authPasswdData) {
- 	    securityType = rfbSecTypeVncAuth;
-    }
+    int32_t securityType = rfbClientPrimarySecurityType(cl);
 
     if (cl->protocolMajorVersion==3 && cl->protocolMinorVersion < 7)
     {
@@ -334,6 +347,7 @@ rfbProcessClientSecurityType(rfbClientPtr cl)
     int n;
     uint8_t chosenType;
     rfbSecurityHandler* handler;
+    int32_t primaryType = rfbClientPrimarySecurityType(cl);
     
     /* Read the security type. */
     n = rfbReadExact(cl, (char *)&chosenType, 1);
@@ -346,13 +360,32 @@ rfbProcessClientSecurityType(rfbClientPtr cl)
 	return;
     }
 
-    /* Make sure it was present in the list sent by the server. */
+    /* Make sure it was present in the list sent by the server.
+       securityHandlers is shared by all screens of the process and the two
+       built-in handlers are (un)registered in it on behalf of every new
+       connection, so for them the list only tells what the most recent
+       client was offered: a built-in handler is valid for this client iff
+       it is the type this client was offered by rfbAuthNewClient. */
     for (handler = securityHandlers; handler; handler = handler->next) {
 	if (chosenType == handler->type) {
+	      if ((handler == &VncSecurityHandlerVncAuth || handler == &VncSecurityHandlerNone)
+		  && chosenType != primaryType)
+		  continue;
 	      rfbLog("rfbProcessClientSecurityType: executing handler for type %d\n", chosenType);
 	      handler->handler(cl);
 	      return;
 	}
+    }
+
+    /* the type offered to this client may have been unregistered since, on
+       behalf of a connection to another screen */
+    if (chosenType == primaryType) {
+	rfbLog("rfbProcessClientSecurityType: executing handler for type %d\n", chosenType);
+	if (primaryType == rfbSecTypeNone)
+	    rfbVncAuthNone(cl);
+	else
+	    rfbVncAuthSendChallenge(cl);
+	return;
     }
 
     rfbLog("rfbProcessClientSecurityType: wrong security type (%d) requested\n", chosenType);
